@@ -500,7 +500,8 @@ int NinjaMain::ToolMSVC(const Options* options, int argc, char* argv[]) {
 }
 #endif
 
-int ToolTargetsList(const vector<Node*>& nodes, int depth, int indent) {
+int ToolTargetsList(const vector<Node*>& nodes, int depth, int indent,
+                    vector<Node*>* stack) {
   for (vector<Node*>::const_iterator n = nodes.begin();
        n != nodes.end();
        ++n) {
@@ -509,8 +510,15 @@ int ToolTargetsList(const vector<Node*>& nodes, int depth, int indent) {
     const char* target = (*n)->path().c_str();
     if ((*n)->in_edge()) {
       printf("%s: %s\n", target, (*n)->in_edge()->rule_->name().c_str());
-      if (depth > 1 || depth <= 0)
-        ToolTargetsList((*n)->in_edge()->inputs_, depth - 1, indent + 1);
+      // Do not descend into a node that is already being listed further up:
+      // with an unlimited depth a dependency cycle would recurse forever.
+      if ((depth > 1 || depth <= 0) &&
+          find(stack->begin(), stack->end(), *n) == stack->end()) {
+        stack->push_back(*n);
+        ToolTargetsList((*n)->in_edge()->inputs_, depth - 1, indent + 1,
+                        stack);
+        stack->pop_back();
+      }
     } else {
       printf("%s\n", target);
     }
@@ -659,7 +667,8 @@ int NinjaMain::ToolTargets(const Options* options, int argc, char* argv[]) {
   string err;
   vector<Node*> root_nodes = state_.RootNodes(&err);
   if (err.empty()) {
-    return ToolTargetsList(root_nodes, depth, 0);
+    vector<Node*> stack;
+    return ToolTargetsList(root_nodes, depth, 0, &stack);
   } else {
     Error("%s", err.c_str());
     return 1;
